@@ -33,7 +33,7 @@ class C10(Spec):
     prop = "C10"
     coq_targets = ["Props/C10.vo"]
     prop_module = "Props.C10"
-    theorems = []
+    theorems = ['C10_constrained_write', 'C10_constrained_reject', 'C10_constrained_read', 'C10_nnbi_write', 'C10_nnbi_reject', 'C10_nnbi_read', 'C10_nnbi_unbounded_write', 'C10_nnbi_unbounded_read', 'C10_normally_small_write', 'C10_normally_small_read', 'C10_semi_constrained_write', 'C10_semi_constrained_reject', 'C10_semi_constrained_read', 'C10_unconstrained_write', 'C10_unconstrained_read', 'C10_index_write', 'C10_index_reject', 'C10_index_inadmissible', 'C10_index_read', 'C10_index_read_empty', 'C10_length_write', 'C10_length_fragment', 'C10_length_reject', 'C10_length_read', 'C10_refuted_length_semi_or_large_bound', 'C10_refuted_length_large_bound', 'C10_octetstring_write', 'C10_octetstring_write_ext', 'C10_octetstring_reject', 'C10_octetstring_read', 'C10_refuted_octetstring_sized_length', 'C10_bitstring_write', 'C10_bitstring_read', 'C10_bitstring_reject', 'C10_refuted_bitstring_16k', 'C10_twos_write', 'C10_twos_octets', 'C10_twos_reject_len', 'C10_twos_reject_val', 'C10_twos_read', 'C10_no_panic_writers', 'C10_no_panic_readers', 'C10_no_panic_octetstring_read', 'C10_refuted_octetstring_alloc', 'C10_no_panic_bitstring_read_bounded', 'C10_refuted_bitstring_read_16k', 'C10_index_read_overflow_is_error', 'C10_refuted_nnbi_read_overflow']
     builds = [("default", "dev"), ("default", "release")]
     timeout_per_chunk = 600
     mem_gb = 4
